@@ -66,6 +66,11 @@ pub struct SupplyTrace {
     /// deleted and created anew; what the world no longer has is removed
     #[serde(default)]
     pub in_place: bool,
+    /// hard read errors (EIO, per mille of the read(2) calls on files of the scratch tree) while the verifier
+    /// runs: the call may fail; it must not succeed on a world whose necessary conditions do not hold (an
+    /// unreadable link file is not an absent one)
+    #[serde(default)]
+    pub read_eio: Option<u64>,
 }
 
 pub struct SupplyOutcome {
@@ -162,14 +167,18 @@ pub fn run_supply(t: &SupplyTrace, scratch: &Scratch) -> SupplyOutcome {
         let m = materialise(&stored, &real_links, arrival, fired.clone(), t.fixed_mtime, if t.link_dir_style == 2 { Some(decoy.as_path()) } else { None }, t.via_symlink).expect("materialise");
         let links = passed;
         let work = scratch.work();
-        let armed = match t.read_faults {
-            Some((short, eintr)) if rep % 2 == 1 => {
-                use std::os::unix::fs::MetadataExt;
-                let dev = std::fs::metadata(&scratch.root).map(|m| m.dev()).unwrap_or(0);
-                crate::seams::read_arm(dev, *hs, short, eintr, 0);
-                true
-            }
-            _ => false,
+        let (short, eintr) = match t.read_faults {
+            Some(se) if rep % 2 == 1 => se,
+            _ => (0, 0),
+        };
+        let eio = t.read_eio.unwrap_or(0);
+        let armed = if short + eintr + eio > 0 {
+            use std::os::unix::fs::MetadataExt;
+            let dev = std::fs::metadata(&scratch.root).map(|m| m.dev()).unwrap_or(0);
+            crate::seams::read_arm(dev, *hs, short, eintr, eio);
+            true
+        } else {
+            false
         };
         let call = VerifyCall {
             layout_bytes: &m.root_layout_bytes,
@@ -189,7 +198,10 @@ pub fn run_supply(t: &SupplyTrace, scratch: &Scratch) -> SupplyOutcome {
             CallResult::Verdict(v) => verdicts.push(v),
         }
         if armed {
-            let (_calls, short, eintr, _) = crate::seams::read_disarm();
+            let (_calls, short, eintr, eio) = crate::seams::read_disarm();
+            if eio > 0 {
+                read_fired.push("R-EIO".to_string());
+            }
             if short > 0 {
                 read_fired.push("R-SHORT".to_string());
             }
